@@ -80,7 +80,14 @@ def stability(rec):
     dz = c["height"] / 30
     F = lam / (c["cp_solution"] * c["rho_l"]) * dt / dz ** 2
     Bi = S.k["s0"] * dz / lam
-    return dict(F=F, Bi=Bi, inside=bool(2 * F <= 1 and F * (1 + Bi) <= 1))
+    # hypotheses of C07_1D_run_bounds (inequalities between the constants of the run)
+    sf = c["solid_fraction"]; whi = 1 - sf
+    cp_of = lambda w: c["cp_s"] * sf + c["cp_i"] * w + c["cp_w"] * (1 - sf - w)
+    lam_of = lambda w: c["lambda_i"] * w + c["lambda_w"] * (1 - w)
+    cmin = min(cp_of(0), cp_of(whi)); lmin = min(lam_of(0), lam_of(whi)); lmax = max(lam_of(0), lam_of(whi))
+    thm = bool(2 * F <= 1 and F * (1 + Bi) <= 1 and cmin > 0 and lmin > 0 and 2 * dt * lmax <= cmin * c["rho_l"] * dz ** 2
+               and lmax - lmin <= 4 * lmin and S.k["s0"] * dz <= lmin and c["configuration"] != "VISF")
+    return dict(F=F, Bi=Bi, inside=bool(2 * F <= 1 and F * (1 + Bi) <= 1), run_theorem_applies=thm)
 
 
 def check(rep, tier):
@@ -119,6 +126,8 @@ def check(rep, tier):
         st = stability(rec)
         rep.case(lab, nontrivial=True, sample=dict(run=lab, stability=st) if len(rep.samples) < 4 else None)
         rep.count(rec["dim"] + "/" + rec["conf"]); rep.count(("inside-stability" if st["inside"] else "outside-stability") + (" 2D" if rec["dim"] == "spatial_2D" else ""))
+        if st.get("run_theorem_applies"):
+            rep.count("C07_1D_run_bounds applies (all hypotheses hold for the run's constants)")
         if st["inside"]:
             bounds_oracle(rep, rec)
         if rec.get("study"):
